@@ -2423,7 +2423,7 @@ static int _jbl_cmp_node_keys(const void *o1, const void *o2) {
   } else if (!n1 || (n1->klidx < n2->klidx)) { // -V522
     return -1;
   }
-  return strncmp(n1->key, n2->key, n1->klidx);
+  return memcmp(n1->key, n2->key, n1->klidx);
 }
 
 static uint32_t _jbl_node_count(struct jbl_node *n) {
@@ -2503,7 +2503,7 @@ int _jbl_compare_nodes(struct jbl_node *n1, struct jbl_node *n2, iwrc *rcp) {
       if (n1->vsize != n2->vsize) {
         return n1->vsize - n2->vsize;
       }
-      return strncmp(n1->vptr, n2->vptr, n1->vsize);
+      return memcmp(n1->vptr, n2->vptr, n1->vsize);
     case JBV_ARRAY:
       for (n1 = n1->child, n2 = n2->child; n1 && n2; n1 = n1->next, n2 = n2->next) {
         int res = _jbl_compare_nodes(n1, n2, rcp);
